@@ -57,14 +57,15 @@ func (h *vHandle) snapshotModels() []vNamed {
 }
 
 type vHist struct {
-	orig    *vHandle
-	snaps   []*vHandle
-	f       *vFile
-	rc      *vRefCounts // non-nil: C15 callbacks installed
-	other   *Store      // second store sharing the process-wide free lists (C10)
-	otherC  *Collection
-	flushed []vNamed // model at the last successful flush (C12/C02)
-	steps   int
+	orig         *vHandle
+	snaps        []*vHandle
+	f            *vFile
+	rc           *vRefCounts // non-nil: C15 callbacks installed
+	other        *Store      // second store sharing the process-wide free lists (C10)
+	otherC       *Collection
+	flushed      []vNamed // model at the last successful flush (C12/C02)
+	steps        int
+	pinnedVisits int
 }
 
 const (
@@ -217,6 +218,10 @@ func (h *vHist) step(op int, maxSnaps int) bool {
 				o.s.ItemDecRef(n.c, it) // the caller releases what it was handed
 			}
 		case hPinnedVisit:
+			if h.pinnedVisits >= vParam("maxpinned") {
+				return false
+			}
+			h.pinnedVisits++
 			vTrace("VisitWithNestedOps")
 			// a version pinned in flight while the mutator goes on
 			nested := vChoose("nested", 0, 2)
